@@ -95,7 +95,9 @@ def scenarios(d):
         else:
             ops.append(["unsat", d.randint(0, 2)])
     return {"prog": {"enums": {}, "classes": [cls]}, "state": d.choice(["explicit", "explicit", "global"]), "seed": d.seed(),
-            "gseed": d.seed(), "ops": ops}
+            "gseed": d.seed(), "ops": ops,
+            # the documented two-argument form RandState.mkFromSeed(seed, "string") in half of the scenarios
+            "strval": d.choice([None, None, "abc", "inst.path[3]", ""])}
 
 
 def run_child(scs, variant, timeout=600):
@@ -326,7 +328,7 @@ def run_shard(spec, seed, tier, acc):
         ncalls = len([t for t in tr if t not in (["new"], ["reseed"])])
         nt = ncalls >= 5 and any(s[0] in ("order", "dist") for s in st) and len(variants) >= 6
         acc.case(sc, nt, sample=text_of(sc) + "\n# baseline trace: %s" % cjson(tr)[:300])
-        acc.label("state:" + sc["state"])
+        acc.label("state:" + sc["state"] + ("+string" if sc.get("strval") is not None and sc["state"] == "explicit" else ""))
         if any(t and t[0] == "harness-exception" for t in [tr] if isinstance(tr, list) and tr and isinstance(tr[0], str)):
             acc.label("harness exception in child")
     for v in vios:
